@@ -1,0 +1,78 @@
+//go:build verif
+
+package collect
+
+import (
+	"context"
+	"time"
+
+	"github.com/honeycombio/refinery/types"
+)
+
+// Verification hooks for properties C04 / C05 / C06 (family coll2). Export-only wrappers so that a
+// driver can run the collector's own code sequentially: the worker goroutines are parked through their
+// existing pause channel, then processSpan / sendExpiredTracesInCache / sendTracesEarly / the reload
+// branch are called on the parked workers from the driver's goroutine. No behaviour lives here.
+
+// VerifC04Park parks every worker goroutine (blocks until each has accepted the pause) and returns the
+// function that resumes them.
+func (i *InMemCollector) VerifC04Park() (resume func()) {
+	chans := make([]chan struct{}, len(i.workers))
+	for k, w := range i.workers {
+		ch := make(chan struct{})
+		w.pause <- ch
+		chans[k] = ch
+	}
+	return func() {
+		for _, ch := range chans {
+			close(ch)
+		}
+	}
+}
+
+// VerifC04ProcessSpan is CollectorWorker.processSpan on the worker that owns the trace.
+func (i *InMemCollector) VerifC04ProcessSpan(sp *types.Span) {
+	w := i.workers[i.getWorkerIDForTrace(sp.TraceID)]
+	w.localSpansWaiting.Add(1)
+	w.processSpan(context.Background(), sp)
+}
+
+// VerifC04Tick is CollectorWorker.sendExpiredTracesInCache(now) on every worker.
+func (i *InMemCollector) VerifC04Tick(now time.Time) {
+	for _, w := range i.workers {
+		w.sendExpiredTracesInCache(context.Background(), now)
+	}
+}
+
+// VerifC04SendEarly is CollectorWorker.sendTracesEarly(bytes) on every worker.
+func (i *InMemCollector) VerifC04SendEarly(bytes int) {
+	for _, w := range i.workers {
+		w.sendTracesEarly(context.Background(), bytes)
+	}
+}
+
+// VerifC04Reload is InMemCollector.reloadConfigs followed by the statements of each worker's reload branch.
+func (i *InMemCollector) VerifC04Reload() {
+	i.reloadConfigs()
+	for _, w := range i.workers {
+		select {
+		case <-w.reload:
+		default:
+		}
+		clear(w.datasetSamplers)
+		if w.sampleCache != nil {
+			w.sampleCache.Resize(i.Config.GetSampleCacheConfig())
+		}
+	}
+}
+
+// VerifC04Marker puts a trace holding only the given marker span on the tracesToSend channel: when the
+// marker reaches the transmission, the sendTraces goroutine has finished everything queued before it.
+func (i *InMemCollector) VerifC04Marker(sp *types.Span) {
+	tr := &types.Trace{TraceID: sp.TraceID, APIKey: sp.APIKey, Dataset: sp.Dataset}
+	tr.AddSpan(sp)
+	i.tracesToSend <- sendableTrace{Trace: tr}
+}
+
+// VerifC04Hostname is the hostname captured by Start.
+func (i *InMemCollector) VerifC04Hostname() string { return i.hostname }
